@@ -176,6 +176,14 @@ def evaluate(case: Case, spec: SemSpec, tier: str = "quick", opt_timeout: float 
         out.comparisons += 1
         diff = oracle.compare(a, b, sigs, shown, spec.costs, spec.bijection)
         if diff is not None:
+
+            def again(alt: bool, inst: str = inst) -> bool:
+                a2, b2 = oracle.solve(case.src, inst, case.consts, limit, alt=alt), oracle.solve(opt.text, inst, case.consts, 4 * limit, alt=alt)
+                return a2.status == "ok" and b2.status == "ok" and oracle.compare(a2, b2, sigs, shown, spec.costs, spec.bijection) is not None
+
+            if not oracle.confirmed(again):
+                out.discards.append("solver_configurations_disagree")
+                continue
             failure = {
                 "kind": diff.kind,
                 "detail": diff.detail,
